@@ -286,6 +286,8 @@ func genC01(t *rapid.T, typ uint8) model.Packet {
 			padToRemainingLength(&m, rapid.SampledFrom(rlTargets).Draw(t, "rltarget"))
 		case k < 34:
 			padToRemainingLength(&m, rapid.SampledFrom(rlTargetsBig).Draw(t, "rltarget"))
+		case k < 58:
+			padToRemainingLength(&m, rapid.SampledFrom(rlTargetsPow2).Draw(t, "rltarget"))
 		}
 	}
 	return m
